@@ -1,6 +1,7 @@
 package main
 
 import (
+	"fmt"
 	"os"
 	"path/filepath"
 
@@ -56,7 +57,19 @@ func (p *templateCmd) Execute(args cmdutils.ExecuteArgs) error {
 		return err
 	}
 
-	output := t.Apply(args.Modules[0], p.appName...)
+	// --app-name is optional; without it kingpin hands over one empty name
+	var appNames []string
+	for _, name := range p.appName {
+		if name == "" {
+			continue
+		}
+		if _, has := args.Modules[0].GetApps()[name]; !has {
+			return fmt.Errorf("app %q not found in the model", name)
+		}
+		appNames = append(appNames, name)
+	}
+
+	output := t.Apply(args.Modules[0], appNames...)
 
 	for filename, data := range output {
 		if _, err := os.Stat(p.outDir); os.IsNotExist(err) {
